@@ -611,6 +611,12 @@ def real_run(run, ins, seed, ext, truth):
     orig, errs = fs.save_results, []
 
     def guarded(*a, **k):
+        if not ins and seed % 2 == 1 and not getattr(fs, "_c19_scaled", False):
+            # insertion indices as large as a run with more than 65535 live points produces them (index j shifted by
+            # 65536 (j mod 3)): what is held in memory at save time must come back from the file, whatever its magnitude
+            # (seeded change C19-eA: the result dictionary stored them as uint16)
+            fs._c19_scaled = True
+            fs.ns.insertion_indices = [np.int64(int(v) + 65536 * (j % 3)) for j, v in enumerate(fs.ns.insertion_indices)]
         try:
             return orig(*a, **k)
         except Exception as e:  # noqa
@@ -800,6 +806,7 @@ def kwargs_stream(ctx, run):
         case = {"stream": "kwargs", "sub": s, "repr": cd._short(kw)}
         check_kwargs(run, kw, eps, td, ins, case)
         ctx.case(("kwargs", cd.tokens(kw)), len(kw) > 0, case if len(case["repr"]) < 300 else None, kind="save_kwargs")
+    g.close_pools()
 
 
 def corpus_stream(ctx, run):
@@ -840,9 +847,11 @@ def real_streams(ctx, run):
         seed = ctx.rng.randrange(1, 2 ** 31)
         try:
             check_real(run, ins, seed, ext, truth)
-        except Exception as e:  # noqa
+        except Exception as e:  # noqa: a real run (or building / saving its results) that raises is a finding, not a harness problem
             import traceback
-            raise core.Infra(f"real {'INS' if ins else 'standard'} run failed: {e!r}\n{traceback.format_exc()[-1500:]}")
+            run.fail("FlowSampler.run:real-run-raised", f"real {'INS' if ins else 'standard'} run with result_extension={ext!r} raised "
+                     f"{type(e).__name__}: {e}", {"stream": "real", "ins": ins, "seed": seed, "truth": truth, "format": ext,
+                                                  "where": traceback.format_exc()[-800:]})
 
 
 def correspond(ctx):
